@@ -31,6 +31,7 @@ type detProvider struct {
 	canon   []Ev
 	failAt  int
 	calls   int // FilterStateUpdate calls since the last C step
+	decode  bool // mode C: logs decoded by the real stateUpdateFromGethContract
 }
 
 func (p *detProvider) ChainID(context.Context) (*big.Int, error) { return p.chainID, nil }
@@ -53,6 +54,15 @@ func (p *detProvider) FilterStateUpdate(_ context.Context, from, to uint64) ([]*
 	p.calls++
 	if i == p.failAt {
 		return nil, errScripted
+	}
+	if p.decode {
+		var out []*l1.StateUpdate
+		for _, e := range p.canon {
+			if from <= e.L1 && e.L1 <= to {
+				out = append(out, l1.VerifDecode(e.gethLog(false)))
+			}
+		}
+		return out, nil
 	}
 	return inRange(p.canon, from, to), nil
 }
